@@ -408,6 +408,22 @@ def conv_atoms(rf: RF):
     return [a for a in rf.atoms() if a[0] == "conv"]
 
 
+def converters_tried(o: Outcome) -> bool:
+    """Giving up on a conversion of a *quantity* is legitimate only after the converters registered for its type
+    were looked at: the path iterated (or measured) the converter list, or called a converter (which returned
+    None, or the path would not have given up)."""
+    for e in o.state.effects:
+        if e[0] == "convcall":
+            return True
+        if e[0] == "loop-iter" and "converters(" in str(getattr(e[1], "tag", "")):
+            return True
+    return any("converters(" in t for t in o.trace)
+
+
+NOT_TRIED = ("gives up converting without consulting the registered converters",
+             "UnitConversionError on a path that never looked at the type's converters")
+
+
 def judge_addsub(sign: int, fl: str):
     """K4: same-type sum/difference in the left operand's unit and type."""
     def judge(o: Outcome):
@@ -418,7 +434,7 @@ def judge_addsub(sign: int, fl: str):
             if o.exc.name == "UnitConversionError" and not linear:
                 if st.same_unit(s.unit.uid, other.unit.uid) is True:
                     return (exc_sig(o), "identical units cannot fail to convert")
-                return None
+                return None if converters_tried(o) else NOT_TRIED
             return (exc_sig(o), "contract: sum/difference in the left operand's unit")
         v = o.value
         if isinstance(v, QtyV) and v.amount is not None:
@@ -453,7 +469,7 @@ def judge_compare(opname: str, fl: str, units=False):
                 ou = other if units else other.unit
                 if st.same_unit(su.uid, ou.uid) is True:
                     return (exc_sig(o), "identical units cannot fail to convert")
-                return None
+                return None if (units or converters_tried(o)) else NOT_TRIED
             return (exc_sig(o), "contract: boolean result")
         v = o.value
         if isinstance(v, BoolV):
